@@ -258,6 +258,18 @@ error_goal(error(representation_error(dcg_body), Context),
            error(representation_error(dcg_body), Context)).
 error_goal(E, _) :- throw(E).
 
+% phrase/3 calls the translated body: a cut in it is local to phrase/3.
+% The expansion of a phrase/3 goal replaces the goal by the translated
+% body, so a body with a cut is wrapped in call/1.
+cut_opaque(G0, G) :-
+    (  nonvar(G0), has_cut(G0) -> G = call(G0) ; G = G0 ).
+
+has_cut(G) :- var(G), !, fail.
+has_cut(!).
+has_cut((A, B)) :- (  has_cut(A) -> true ; has_cut(B) ).
+has_cut((A ; B)) :- (  has_cut(A) -> true ; has_cut(B) ).
+has_cut((A -> B)) :- (  has_cut(A) -> true ; has_cut(B) ).
+
 user:goal_expansion(phrase(GRBody, S, S0), GRBody2) :-
     loader:strip_module(GRBody, M, GRBody0),
     nonvar(GRBody0),
@@ -269,9 +281,11 @@ user:goal_expansion(phrase(GRBody, S, S0), GRBody2) :-
        GRBody0 = [T|Ts] ->
        GRBody2 = (error:must_be(list, [T|Ts]),
                   lists:append([T|Ts], S0, S))
-    ;  GRBody = (_:_) ->
-       GRBody2 = M:GRBody1
-    ;  GRBody2 = GRBody1
+    ;  dcgs:cut_opaque(GRBody1, GRBody3),
+       (  GRBody = (_:_) ->
+          GRBody2 = M:GRBody3
+       ;  GRBody2 = GRBody3
+       )
     ).
 
 user:goal_expansion(phrase(GRBody, S), phrase(GRBody, S, [])).
